@@ -141,6 +141,7 @@ func (q *queueMPSC) Size() int64 {
 }
 
 func (q *queueMPSC) Lock() bool {
+	VerifPoint("mpsc.lock", q)
 	return atomic.SwapUint32(&q.lock, 1) == 0
 }
 
@@ -158,6 +159,7 @@ func (q *queueLimitMPSC) Size() int64 {
 }
 
 func (q *queueLimitMPSC) Lock() bool {
+	VerifPoint("mpsc.lock", q)
 	return atomic.SwapUint32(&q.lock, 1) == 0
 }
 
